@@ -283,6 +283,7 @@ class FuncInfo(object):
 #                                                         ->  removed
 #   C3  `x = x <op> E` for a local name x                 ->  `x <op>= E`
 #   C4  `x: T = E` (annotated assignment with a value)    ->  `x = E`
+#   C5  `a < b` / `a <= b` (single comparison)            ->  `b > a` / `b >= a`
 # Line numbers of the surviving nodes are kept.
 
 def _name_uses(fn):
@@ -362,6 +363,10 @@ def canonicalise(tree):
   for n in ast.walk(tree):
     if isinstance(n, (ast.FunctionDef, ast.AsyncFunctionDef)):
       _canon_function(n)
+    elif isinstance(n, ast.Compare) and len(n.ops) == 1 and isinstance(
+        n.ops[0], (ast.Lt, ast.LtE)):
+      n.left, n.comparators[0] = n.comparators[0], n.left
+      n.ops[0] = ast.Gt() if isinstance(n.ops[0], ast.Lt) else ast.GtE()
   return tree
 
 
